@@ -3,7 +3,9 @@ package rscp
 import (
 	"encoding/json"
 	"fmt"
-	"reflect"
+	"math/big"
+	"strconv"
+	"time"
 )
 
 type jsonMessage struct {
@@ -21,49 +23,124 @@ func (m *Message) UnmarshalJSONValue(jm json.RawMessage) error {
 		}
 		m.Value = tmp
 	} else if jm != nil && m.DataType != None {
-		var tmp interface{}
-		// TODO: we need to cleanup generic data type handling somewhen to prevent such hacks
-		if m.DataType == Timestamp || m.DataType == ByteArray {
-			tmp = m.DataType.newEmpty(0)
-		} else {
-			tmp = reflect.ValueOf(m.DataType.newEmpty(0)).Elem().Interface()
-		}
-		if err := json.Unmarshal(jm, &tmp); err != nil {
+		tmp, err := unmarshalJSONScalar(m.DataType, jm)
+		if err != nil {
 			return fmt.Errorf("could not convert value '%s' for data type %s: %s", jm, m.DataType, err)
 		}
-		// convert number values to expected data type (json does by default unmarshal to float64)
-		if v, isFloat := tmp.(float64); isFloat {
-			var err error
-			if tmp, err = m.DataType.new(v); err != nil {
-				return fmt.Errorf("could not convert number value '%f' for data type %s", v, m.DataType)
-			}
-		}
-		// convert number array to byte array (json does by default unmarshal to []float64)
-		if m.DataType == ByteArray {
-			var arr []interface{}
-			var isInterfaceArray bool
-			if arr, isInterfaceArray = tmp.([]interface{}); !isInterfaceArray {
-				return fmt.Errorf("could not convert byte array value '%v' for data type %s", tmp, m.DataType)
-			}
-			l := len(arr)
-			tmp = make([]byte, l)
-			for i := 0; i < l; i++ {
-				var v float64
-				var isFloat bool
-				if v, isFloat = arr[i].(float64); !isFloat {
-					return fmt.Errorf("could not convert byte array value '%v' for data type %s", tmp, m.DataType)
-				}
-				tmp.([]uint8)[i] = uint8(v)
-			}
-		}
-		// TODO: we need to cleanup generic data type handling somewhen to prevent such hacks
-		if m.DataType == Timestamp {
-			m.Value = reflect.ValueOf(tmp).Elem().Interface()
-		} else {
-			m.Value = tmp
-		}
+		m.Value = tmp
 	}
 	return nil
+}
+
+// jsonInteger reads a json number that has to be an integer within [minimum, maximum].
+// The number is taken from its decimal text, so nothing is rounded or saturated on the way.
+func jsonInteger(jm json.RawMessage, minimum, maximum *big.Int) (*big.Int, error) {
+	var n json.Number
+	if err := json.Unmarshal(jm, &n); err != nil {
+		return nil, err
+	}
+	r, ok := new(big.Rat).SetString(n.String())
+	if !ok || !r.IsInt() {
+		return nil, fmt.Errorf("%s is not an integer", n)
+	}
+	if i := r.Num(); i.Cmp(minimum) >= 0 && i.Cmp(maximum) <= 0 {
+		return i, nil
+	}
+	return nil, fmt.Errorf("%s is out of range [%s, %s]", n, minimum, maximum)
+}
+
+func jsonSigned(jm json.RawMessage, bits uint) (int64, error) {
+	limit := new(big.Int).Lsh(big.NewInt(1), bits-1)
+	i, err := jsonInteger(jm, new(big.Int).Neg(limit), new(big.Int).Sub(limit, big.NewInt(1)))
+	if err != nil {
+		return 0, err
+	}
+	return i.Int64(), nil
+}
+
+func jsonUnsigned(jm json.RawMessage, bits uint) (uint64, error) {
+	limit := new(big.Int).Lsh(big.NewInt(1), bits)
+	i, err := jsonInteger(jm, big.NewInt(0), new(big.Int).Sub(limit, big.NewInt(1)))
+	if err != nil {
+		return 0, err
+	}
+	return i.Uint64(), nil
+}
+
+func jsonFloat(jm json.RawMessage, bits int) (float64, error) {
+	var n json.Number
+	if err := json.Unmarshal(jm, &n); err != nil {
+		return 0, err
+	}
+	return strconv.ParseFloat(n.String(), bits)
+}
+
+// unmarshalJSONScalar converts a json value to the go type of the data type, exactly or not at all.
+//
+//nolint:gocyclo,mnd
+func unmarshalJSONScalar(d DataType, jm json.RawMessage) (interface{}, error) {
+	switch d {
+	case Bool:
+		var b bool
+		if err := json.Unmarshal(jm, &b); err == nil {
+			return b, nil
+		}
+		i, err := jsonUnsigned(jm, 1)
+		return i == 1, err
+	case Char8:
+		i, err := jsonSigned(jm, 8)
+		return int8(i), err
+	case UChar8, Bitfield:
+		i, err := jsonUnsigned(jm, 8)
+		return uint8(i), err
+	case Int16:
+		i, err := jsonSigned(jm, 16)
+		return int16(i), err
+	case UInt16:
+		i, err := jsonUnsigned(jm, 16)
+		return uint16(i), err
+	case Int32:
+		i, err := jsonSigned(jm, 32)
+		return int32(i), err
+	case Uint32:
+		i, err := jsonUnsigned(jm, 32)
+		return uint32(i), err
+	case Int64:
+		return jsonSigned(jm, 64)
+	case Uint64:
+		return jsonUnsigned(jm, 64)
+	case Error:
+		i, err := jsonUnsigned(jm, 32)
+		return RscpError(i), err
+	case Float32:
+		f, err := jsonFloat(jm, 32)
+		return float32(f), err
+	case Double64:
+		return jsonFloat(jm, 64)
+	case CString:
+		var s string
+		err := json.Unmarshal(jm, &s)
+		return s, err
+	case Timestamp:
+		var t time.Time
+		err := json.Unmarshal(jm, &t)
+		return t, err
+	case ByteArray:
+		var raw []json.RawMessage
+		if err := json.Unmarshal(jm, &raw); err != nil {
+			return nil, err
+		}
+		b := make([]byte, len(raw))
+		for i := range raw {
+			v, err := jsonUnsigned(raw[i], 8)
+			if err != nil {
+				return nil, err
+			}
+			b[i] = uint8(v)
+		}
+		return b, nil
+	}
+	return nil, fmt.Errorf("unsupported data type %s", d)
 }
 
 // UnmarshalJSON unmarshals a message from json including nested messages in containers
